@@ -26,6 +26,7 @@ pub fn plan() -> Plan {
         soft_s: (28, 420),
         exhaustive: None,
         min_evaluations: 30,
+        extra: None,
     }
 }
 
@@ -656,4 +657,49 @@ pub fn shard(ctx: &Ctx) -> Shard {
         }
     }
     sh
+}
+
+/// `pv c08san <seed> <runs>`: a few concurrent runs in one process (for the sanitizer builds, tools/san.sh)
+pub fn san_main(args: &[String]) -> i32 {
+    crate::runner::install_panic_hook();
+    let seed: u64 = args.first().and_then(|s| s.parse().ok()).unwrap_or(1);
+    let runs: u64 = args.get(1).and_then(|s| s.parse().ok()).unwrap_or(6);
+    let mut rng = Rng::new(seed ^ 0x5A17);
+    let mut ops = 0u64;
+    let mut bad = 0;
+    for n in 0..runs {
+        let mut rc = matrix(&mut rng, false, n % 5);
+        rc.clients = rc.clients.min(64);
+        rc.ops_per_client = rc.ops_per_client.min(25);
+        let mut cfg = Cfg::default_for(rc.keys, 0);
+        cfg.mt = true;
+        cfg.key_salt = rng.next();
+        cfg.bloom = (n % 2) as u8;
+        cfg.max_records = rc.max_records;
+        cfg.max_dirty = Some(4096);
+        let dir = new_dir("c08san-");
+        let s = rng.next();
+        let r = block_on_catch(true, run(dir.clone(), cfg, rc.clone(), s));
+        rm_dir(&dir);
+        match r {
+            Ok(out) => {
+                ops += out.ops;
+                if let Some((sig, d)) = out.violation {
+                    println!("C08SAN violation {}: {}", sig, d);
+                    bad += 1;
+                }
+            }
+            Err(p) => {
+                println!("C08SAN panic {}", p);
+                bad += 1;
+            }
+        }
+    }
+    println!("C08SAN done runs={} client_operations={} violations={}", runs, ops, bad);
+    crate::runner::cleanup_scratch();
+    if bad > 0 {
+        1
+    } else {
+        0
+    }
 }
